@@ -68,6 +68,14 @@ def mspecOfJson (j : Json) : R MSpec := do
     let pmin ← rats j "pmin"
     let cell ← rats j "cell"
     pure (.cells fun i => g (tab pmin.length fun a => pmin.getD a 0 + ((i.getD a 0 : Nat) + 1 / 2 : Rat) * cell.getD a 0))
+  | "lookup" =>
+    -- a Boolean scalar field: its mask of VALUES, whether its region contains the receiving one,
+    -- and the centre coordinates of both meshes per axis
+    let src ← maskOfJson (← fld j "src")
+    let inside ← boolOfJson (← fld j "inside")
+    let cs ← listOf (listOf ratOfJson) (← fld j "cs")
+    let xs ← listOf (listOf ratOfJson) (← fld j "xs")
+    pure (.lookup src inside (fun b k => (cs.getD b []).getD k 0) (fun b k => (xs.getD b []).getD k 0))
   | "bad" => pure .bad
   | s => throw s!"unknown spec {s}"
 
@@ -81,8 +89,28 @@ def vspecOfJson (j : Json) : R VSpec := do
   | "bad" => pure .bad
   | s => throw s!"unknown spec {s}"
 
+def freshOfJson (j : Json) : R FreshOp := do
+  match ← strOfJson (← fld j "k") with
+  | "same" => pure .same
+  | "reduce" => pure (.reduce (← nats j "axes"))
+  | "rfft" => pure .rfft
+  | s => throw s!"unknown fresh op {s}"
+
 partial def progOfJson (j : Json) : R Prog := do
   match ← strOfJson (← fld j "t") with
+  | "fresh" => pure (.fresh (← freshOfJson (← fld j "op")) (← progOfJson (← fld j "p")))
+  -- compound operations: built by the MODEL's own definitions (`gradProg` …), not by the harness
+  | "grad" => pure (gradProg (← natOfJson (← fld j "nd")) (← progOfJson (← fld j "p")))
+  | "div" => pure (divProg (← natOfJson (← fld j "nv")) (← progOfJson (← fld j "p")))
+  | "curl" => pure (curlProg (← progOfJson (← fld j "p")))
+  | "laplace" => pure (laplaceProg (← natOfJson (← fld j "nd")) (← natOfJson (← fld j "nv")) (← progOfJson (← fld j "p")))
+  | "sum" => pure (sumProg (← listOf progOfJson (← fld j "ps")))
+  | "stack" => pure (stackProg (← listOf progOfJson (← fld j "ps")))
+  | "ufunc" => pure (ufuncProg (← listOf progOfJson (← fld j "ps")))
+  | "lshiftC" => pure (lshiftConstProg (← progOfJson (← fld j "p")))
+  | "rlshiftC" => pure (rlshiftConstProg (← progOfJson (← fld j "p")))
+  | "rsub" => pure (rsubProg (← progOfJson (← fld j "p")))
+  | "rcross" => pure (rcrossProg (← progOfJson (← fld j "p")))
   | "leaf" => pure (.leaf (← natOfJson (← fld j "k")))
   | "pos" => pure (.pos (← progOfJson (← fld j "p")))
   | "un" => pure (.un (← progOfJson (← fld j "p")))
@@ -93,6 +121,31 @@ partial def progOfJson (j : Json) : R Prog := do
   | "hdf5" => pure (.hdf5 (← progOfJson (← fld j "p")))
   | "setv" => pure (.setv (← mspecOfJson (← fld j "spec")) (← progOfJson (← fld j "p")))
   | s => throw s!"unknown node {s}"
+
+def stmtOfJson (j : Json) : R Stmt := do
+  match ← strOfJson (← fld j "s") with
+  | "build" => pure (.build (← progOfJson (← fld j "prog")))
+  | "assign" => pure (.assign (← natOfJson (← fld j "i")) (← mspecOfJson (← fld j "spec")))
+  | "rotI" => pure (.rotI (← natOfJson (← fld j "i")) (← natOfJson (← fld j "a")) (← natOfJson (← fld j "b"))
+                      (← intOfJson (← fld j "turns")))
+  | "poke" => pure (.poke (← natOfJson (← fld j "i")) (← natOfJson (← fld j "pos")) (← boolOfJson (← fld j "v")))
+  | s => throw s!"unknown statement {s}"
+
+/-- all variables of a session: object, buffer address, mask -/
+def sessToJson (st : Sess) : Json :=
+  Json.arr ((List.range st.vars.length).map fun i =>
+    Json.mkObj [("obj", Json.num (JsonNumber.fromNat (st.objOf i))),
+                ("addr", Json.num (JsonNumber.fromNat (st.addrOf i))),
+                ("mask", maskToJson (st.mask i))]).toArray
+
+/-- run a history statement by statement; the state after every statement (stops at the first
+rejected statement, reported as `{"err": …}` in its place) -/
+def runTrace (st : Sess) : List Stmt → List Json
+  | [] => []
+  | s :: rest =>
+    match st.step s with
+    | .error e => [errJ e]
+    | .ok st' => sessToJson st' :: runTrace st' rest
 
 end C08J
 
@@ -106,7 +159,7 @@ def c08 (op : String) (j : Json) : Option (R Json) :=
       let p ← progOfJson (← fld j "prog")
       let env : Nat → Mask := fun k => leaves.getD k (NDA.const [] false)
       match eval env p with
-      | .error e => pure (errJ e)
+      | .error e => pure (Json.mkObj [("err", .str (toString e)), ("wf", Json.bool (wf env p))])
       | .ok m =>
         -- the index-level reading on every cell of the result, and the address of the result's
         -- buffer in the store model (leaf k lives at address k)
@@ -115,10 +168,15 @@ def c08 (op : String) (j : Json) : Option (R Json) :=
           | .ok r => Json.num (JsonNumber.fromNat r.1)
           | .error _ => Json.null
         pure (Json.mkObj [("ok", maskToJson m), ("spec", boolsJ sp), ("shapeOf", natsJ (shapeOf env p)),
+                          ("wf", Json.bool (wf env p)),
                           ("addr", addr), ("nleaves", Json.num (JsonNumber.fromNat leaves.length)),
                           ("alias", match aliasOf p with
                             | some k => Json.num (JsonNumber.fromNat k)
                             | none => Json.null)])
+  | "hist" => some do
+      let leaves ← listOf maskOfJson (← fld j "leaves")
+      let stmts ← listOf stmtOfJson (← fld j "stmts")
+      pure (Json.mkObj [("ok", Json.arr (runTrace (Sess.init leaves) stmts).toArray)])
   | "setvalid" => some do
       let f ← fldOfJson (← fld j "field")
       let s ← vspecOfJson (← fld j "spec")
